@@ -16,6 +16,8 @@ import (
 	"github.com/safing/portbase/database/query"
 	"github.com/safing/portbase/database/record"
 	"github.com/safing/portbase/formats/dsd"
+
+	"verifharness/hxlib"
 )
 
 // ---- error classes ------------------------------------------------------------------------------
@@ -402,7 +404,7 @@ func rtLine(in *rtIn, jsons []string) (string, *rtOut, bool) {
 
 // ---- executor -----------------------------------------------------------------------------------
 
-type exec struct{}
+type exec struct{ r *hxlib.Run }
 
 const hangAfter = 30 * time.Second
 
@@ -425,15 +427,57 @@ func guarded(f func() string) string {
 	}
 }
 
+// parseResult: ParseQuery, then — a parsed query is a query object like any other — its own round trip:
+// "ok <dump> <print> same" | "… diff:<second print>" | "… err:<class>".
 func parseResult(text string) string {
 	q, err := query.ParseQuery(text)
 	if err != nil {
 		return errClass(err)
 	}
-	return "ok " + query.VerifDump(q) + " " + hx(q.Print())
+	p := q.Print()
+	rp := "same"
+	q2, err := query.ParseQuery(p)
+	if err != nil {
+		rp = "err:" + strings.TrimPrefix(errClass(err), "err ")
+	} else if p2 := q2.Print(); p2 != p {
+		rp = "diff:" + hx(p2)
+	}
+	return "ok " + query.VerifDump(q) + " " + hx(p) + " " + rp
 }
 
-func (exec) Do(line string) string {
+// textOracle: stdlib facts about every token of the text and, if it parses, of its printed form.
+func textOracle(text string, extra []string) string {
+	toks := append(append([]string{}, extra...), tokensOf(text)...)
+	if q, err := query.ParseQuery(text); err == nil {
+		toks = append(toks, tokensOf(q.Print())...)
+	}
+	return oracleFor(toks)
+}
+
+func (e exec) Do(line string) string {
+	out := e.do(line)
+	if e.r != nil {
+		op := strings.SplitN(line, " ", 2)[0]
+		f := strings.Split(out, " ")
+		if op == "gs" && len(f) > 1 {
+			f = f[1:] // first field is the sentence
+		}
+		k := f[0]
+		if k == "err" && len(f) > 1 {
+			k = "err-" + f[1]
+		}
+		if k == "ok" && (op == "parse" || op == "gs") && len(f) == 4 {
+			k = "ok-reparse-" + strings.SplitN(f[3], ":", 2)[0]
+		}
+		if k == "ok" && op == "rt" && len(f) > 3 {
+			k = "ok-reparse-" + f[3]
+		}
+		e.r.Count("outcome:" + op + ":" + k)
+	}
+	return out
+}
+
+func (exec) do(line string) string {
 	f := strings.Split(line, " ")
 	switch f[0] {
 	case "lex":
@@ -467,7 +511,7 @@ func (exec) Do(line string) string {
 			return "bad-op"
 		}
 		return guarded(func() string {
-			if utf8.ValidString(text) && oracleFor(tokensOf(text)) != f[2] {
+			if utf8.ValidString(text) && textOracle(text, nil) != f[2] {
 				return "bad-tables"
 			}
 			return parseResult(text)
@@ -539,5 +583,5 @@ func (s *sentence) oracle() string {
 		}
 	}
 	walk(s.where)
-	return oracleFor(append(toks, tokensOf(s.render())...))
+	return textOracle(s.render(), toks)
 }
